@@ -19,6 +19,9 @@ from .core import write_replay
 from .universe import Universe, Unsupported
 
 
+TBU = typing.TypeVar('TBU', bound=typing.Union[int, str])     # a type variable bounded by a union
+
+
 def hint_pool(tier, seed):
     hs = grammar.hints_depth1(leaves=grammar.LEAVES, core=grammar.CORE_LEAVES[:4])
     out = []
@@ -33,9 +36,20 @@ def hint_pool(tier, seed):
             if '[' not in name or any(name.endswith(f'[{l}]') for l in ('int', 'str', 'UA', 'Lit1', 'bool', 'object', 'TU', 'TB')) \
                     or (',' in name and i % 5 == 0):
                 keep.append((name, h))
-        out = keep[:230]
+        out = keep[:230] + grammar.annotated_hints(1, limit=24)[:24] + [h for h in grammar.special_hints() if 'Any' not in h[0]][::4]
     else:
-        out = out[:420] + grammar.hints_depth2_curated()[::9]
+        quick = hint_pool('quick', seed)
+        out = quick + out[:700] + grammar.special_hints() + grammar.hints_depth2_curated()[::4] + [
+            ('Union[TB,str]', typing.Union[grammar.TB, str]), ('Union[TC,None]', typing.Optional[grammar.TC]),
+            ('Optional[NTInt]', typing.Optional[grammar.NTInt]), ('Union[TL,int]', typing.Union[grammar.TL, int]),
+            ('TBU', TBU), ('Optional[TBU]', typing.Optional[TBU]), ('List[Optional[TB]]', typing.List[typing.Optional[grammar.TB]])]
+        out = [(n, h) for n, h in out if 'Any' not in n and 'object' != n and 'Callable' not in n]
+        seen, ded = set(), []
+        for n, h in out:
+            if n not in seen:
+                seen.add(n)
+                ded.append((n, h))
+        out = ded
     return out
 
 
@@ -68,11 +82,13 @@ def run_case(prop, name, idx, confkw, tier, src):
         out.skipped = f'reference semantics: {e}'
         return out
     trues = []
+    undecided = []
     side = {'reflexive': None, 'unexpected_exceptions': 0, 'typehint_identity': None}
     for j, (bname, B) in enumerate(pool):
         try:
             r = is_subhint(A, B)
         except BeartypeException:
+            undecided.append(j)     # beartype declares the pair undecidable: neither True nor False
             continue
         except Exception as e:
             side['unexpected_exceptions'] += 1
@@ -95,6 +111,9 @@ def run_case(prop, name, idx, confkw, tier, src):
     out.side = side
     out.pairs = len(pool)
     out.trues = len(trues)
+    out.true_idx = [j for j, _b, _B in trues]
+    out.row = idx
+    out.undecided_idx = undecided
     for j, bname, B in trues:
         try:
             nodeB = refsem.parse(B)
@@ -155,6 +174,15 @@ def replay_c19(p):
             if not isinstance(e, BeartypeException):
                 return True, f'is_subhint({p["a"]}, {p["b"]}) raised {type(e).__name__}: {e}'
         return False, 'no foreign exception'
+    if p['kind'] == 'c19_transitivity':
+        A, B, C = pool[p['a']], pool[p['b']], pool[p['c']]
+        ab, bc, ac = is_subhint(A, B), is_subhint(B, C), is_subhint(A, C)
+        if ab and bc and not ac:
+            return True, f'is_subhint({p["a"]}, {p["b"]}) and is_subhint({p["b"]}, {p["c"]}) are True but is_subhint({p["a"]}, {p["c"]}) is False'
+        return False, f'a<=b {ab}, b<=c {bc}, a<=c {ac}'
+    if p['kind'] == 'c19_reflexivity':
+        A = pool[p['a']]
+        return (not is_subhint(A, A)), f'is_subhint({p["a"]}, {p["a"]}) = {is_subhint(A, A)}'
     A, B = pool[p['a']], pool[p['b']]
     obj = universe.build(p['obj'])
     if not is_subhint(A, B):
@@ -169,3 +197,40 @@ def replay_c19(p):
         return True, (f'is_subhint({p["a"]}, {p["b"]}) is True, yet {obj!r} fully satisfies A and violates B '
                       f'(beartype itself: is_bearable(obj, A)={ba}, is_bearable(obj, B)={bb})')
     return False, f'object conforms to A: {ca}, to B: {cb}'
+
+
+def relation_laws(outs, tier, seed):
+    """Reflexivity and transitivity of the relation the real is_subhint computed over the pool (a
+    table of concrete answers, not a solver verdict).  Pairs on which beartype raises its
+    'undecidable' exception count as neither True nor False.  One finding per missing edge."""
+    pool = pool_for(tier, seed)
+    rel, und, names = {}, {}, {}
+    for o in outs:
+        if getattr(o, 'row', None) is None or o.skipped:
+            continue
+        rel[o.row] = set(o.true_idx)
+        und[o.row] = set(getattr(o, 'undecided_idx', ()))
+        names[o.row] = o.name
+    src = {'gen': 'c19', 'tier': tier, 'seed': seed}
+    findings, chains, missing = [], 0, {}
+    for a, ta in rel.items():
+        if getattr(next((o for o in outs if getattr(o, 'row', None) == a), None), 'side', {}).get('reflexive') is False:
+            findings.append({'kind': 'c19_reflexivity', 'program': 'is_subhint', 'label': f'is_subhint({names[a]}, {names[a]}) is False',
+                             'replay': write_replay('C19', {'property': 'C19', 'kind': 'c19_reflexivity', 'hint': src, 'a': names[a]}),
+                             'detail': 'not reflexive', 'hint': f'{names[a]} <= {names[a]}', 'confkw': {}})
+        for b in ta:
+            for c in rel.get(b, ()):
+                chains += 1
+                if c not in ta and c not in und[a] and (a, c) not in missing:
+                    missing[(a, c)] = b
+    for (a, c), b in missing.items():
+        na, nb, nc = pool[a][0], pool[b][0], pool[c][0]
+        findings.append({'kind': 'c19_transitivity', 'program': 'is_subhint',
+                         'label': f'{na} <= {nb} <= {nc} but not {na} <= {nc}',
+                         'replay': write_replay('C19', {'property': 'C19', 'kind': 'c19_transitivity', 'hint': src, 'a': na, 'b': nb, 'c': nc}),
+                         'detail': f'is_subhint({na}, {nb}) and is_subhint({nb}, {nc}) hold, is_subhint({na}, {nc}) is False',
+                         'hint': f'{na} <= {nc}', 'confkw': {}})
+    return findings, {'chains_a_le_b_le_c_examined': chains, 'missing_edges': len(missing),
+                      'pairs_beartype_calls_undecidable': sum(len(v) for v in und.values()),
+                      'note': 'reflexivity and transitivity are laws of the concretely computed relation over the enumerated hints: '
+                              'a table, reported as found, not solver coverage'}
